@@ -56,19 +56,34 @@ def run(ctx):
         r.check(missing, "unapply_parts/missing-route-segment=>None", where(up), "a route with fewer segments than the pattern does not match", "no None return for a missing route segment")
 
     with ctx.rule("C18.R2", "T5", "siblings agree: literal comparison and parameter-name key", floor=5) as r:
-        # literal comparison in unapply
-        eqs = [c for c in up.calls if c.name == "eq" and c.args and "percent_decode_str(" in describe_operand(up, c.args[0])]
-        r.check(len(eqs) == 1 and "percent_decode_str(" in describe_operand(up, eqs[0].args[1]), "unapply_parts/literal-compare=decoded", eqs[0].loc() if eqs else where(up), "unapply compares percent-decoded route segment with percent-decoded literal",
-                "unapply no longer compares decoded segments")
-        # are_ambiguous must compare literals in the same normal form as unapply does
-        cmps = [c for c in am.calls if c.name in ("eq", "ne") and len(c.args) == 2 and "segment_str(" in describe_operand(am, c.args[0]) + describe_operand(am, c.args[1])]
-        if not cmps:
+        # the normal form in which literal segments are compared: raw text / percent-decoded bytes / lossily decoded text
+        def form(d):
+            if "decode_utf8_lossy(" in d:
+                return "lossy-utf8"
+            if "percent_decode_str(" in d or "percent_decode(" in d:
+                return "decoded-bytes"
+            return "raw"
+
+        def literal_cmp(b):
+            out = []
+            for c in b.calls:
+                if c.name in ("eq", "ne") and len(c.args) == 2:
+                    a0, a1 = describe_operand(b, c.args[0]), describe_operand(b, c.args[1])
+                    if "segment_str(" in a0 + a1:
+                        out.append((c, form(a0), form(a1)))
+            return out
+        eqs = literal_cmp(up)
+        if len(eqs) != 1:
+            raise AnchorMissing("unapply_parts: expected one comparison of a literal segment, found %d" % len(eqs))
+        uc, f0, f1 = eqs[0]
+        r.check(f0 == f1 and f0 != "raw", "unapply_parts/literal-compare/both-sides-same-form", uc.loc(), "unapply compares route segment and literal in the same form (%s)" % f0, "unapply compares a %s route segment with a %s literal" % (f0, f1))
+        cmps_ = literal_cmp(am)
+        if not cmps_:
             raise AnchorMissing("are_ambiguous: comparison of literal segments not found")
-        for c in cmps:
-            a0, a1 = describe_operand(am, c.args[0]), describe_operand(am, c.args[1])
-            dec = "percent_decode_str(" in a0 and "percent_decode_str(" in a1
-            r.check(dec == bool(eqs), "are_ambiguous/literal-compare=same-normal-form-as-unapply", c.loc(), "are_ambiguous compares percent-decoded literals, as unapply does",
-                    "are_ambiguous compares %s with %s but unapply matches literals after percent-decoding: two patterns that accept the same routes (e.g. /a%%2Db and /a-b) are not reported" % (a0[:40], a1[:40]))
+        cmps = [c for c, _, _ in cmps_]
+        for c, g0, g1 in cmps_:
+            r.check(g0 == g1 == f0 == f1, "are_ambiguous/literal-compare=same-normal-form-as-unapply", c.loc(), "are_ambiguous compares literals in the form unapply matches them in (%s)" % g0,
+                    "are_ambiguous compares literals as %s/%s but unapply matches them as %s/%s: two patterns whose literals are equal in unapply's form and different in are_ambiguous's accept the same routes without being reported (raw vs decoded: /a%%2Db and /a-b; bytes vs lossy text: /caf%%E9 and /caf%%E8)" % (g0, g1, f0, f1))
         g = dom_guards(am, cmps[0].block)
         r.check(sum(1 for d, l, _ in g if d.endswith(".parameter") and l == "false") == 2, "are_ambiguous/only-literal-pairs-can-differ", cmps[0].loc(), "a pair of segments separates two patterns only if both are literals")
         lens = [c for c in am.calls if c.name == "len" and "segments" in describe_operand(am, c.args[0])]
